@@ -35,6 +35,15 @@ func VerifH_netmask4() {
 func VerifH_netmask_valid() {
 	m := vnd.Bytes("mask", 4)
 	v := uint32(m[0])<<24 | uint32(m[1])<<16 | uint32(m[2])<<8 | uint32(m[3])
+	// case split on the number of leading one bits (33 cases covering all masks): keeps
+	// the query easy for implementations that count bits instead of using (x+1)&x
+	lead := vnd.Pick("lead", 0, 32)
+	if lead > 0 {
+		vnd.Assume(v>>uint(32-lead) == ^uint32(0)>>uint(32-lead))
+	}
+	if lead < 32 {
+		vnd.Assume(v>>uint(31-lead)&1 == 0)
+	}
 	contiguous := false
 	for n := 0; n <= 32; n++ {
 		var want uint32
